@@ -66,6 +66,10 @@ func customRoutes(cfg *config.Custom, ch chan string) {
 		}
 		log.Printf("[DEBUG] Custom Registry begin decoding json %s \n", time.Now())
 		decoder := json.NewDecoder(resp.Body)
+		// decode into a fresh value: the decoder reuses the elements (and their
+		// maps) of an existing slice, which leaked tags, options and weights of
+		// the previous poll into routes that no longer carry them
+		Routes = nil
 		err = decoder.Decode(&Routes)
 		if err != nil {
 			ch <- fmt.Sprintf("Error decoding request - %s -%s", URL, err.Error())
